@@ -14,6 +14,14 @@ CHECKS = {
         "are compared with the model instantiated with the C03 group product over Q.",
    note=TB + "axioms: none (Print Assumptions: closed). Not modelled: torch index_select/index_copy_ semantics beyond 'gather then scatter along dim' (observed through the tie).",
    technique="Coq proof by induction (window invariant) + exact differential correspondence (vm_compute)", design="5/C12"),
+ 'C03': dict(
+   text="Proof (Coq, over R): associativity, two-sided inverse, neutral identity for SO3/SE3/RxSO3/Sim3; matrix() has the documented blocks [[sR,t],[0,1]], "
+        "Act on 3- and homogeneous 4-vectors (incl. w=0) equals multiplication by it, matrix() is a homomorphism, act(XY)=act X . act Y; validity (unit quaternion, positive scale) "
+        "is preserved by every history of products and inverses (induction over the op list, any length), and |q|^2 after a history is the product of the factors' |.|^2 (drift law). "
+        "Tie: exact route - all ops of all four groups on Hurwitz-unit / dyadic operands, float64 == model over Q bit for bit, incl. op histories compared after every step; "
+        "floating histories (mixed @, Inv, Retr, +) up to 10^4 ops are measured against the 16 n eps drift bound. Search: exact group-law checker on the implementation over all 24 Hurwitz units.",
+   note=TB + "axioms: Coq Reals (ClassicalDedekindReals.sig_forall_dec, sig_not_dec, FunctionalExtensionality.functional_extensionality_dep). IEEE rounding is not modelled: the round-off clause is tie-only.",
+   technique="Coq proof (ring/field/nsatz over R, induction over histories) + exact differential correspondence", design="5/C03"),
 }
 
 NOT_YET = {}
